@@ -1,0 +1,11 @@
+//go:build !verif
+
+package local
+
+import (
+	"github.com/mutagen-io/mutagen/pkg/synchronization/core"
+)
+
+// verifScanInputs is the verification harness's observation point for the
+// acceleration inputs of a scan. Without the "verif" build tag it does nothing.
+func (e *endpoint) verifScanInputs(*core.Snapshot, map[string]bool) {}
